@@ -124,6 +124,35 @@ Definition uf_isbot (s : uf) : bool := forallb (fun kv => N.eqb (fst kv) (snd kv
 Definition uf_atomize (s : uf) : list uf :=
   map (fun kv => [kv]) (filter (fun kv => negb (N.eqb (fst kv) (snd kv))) s).
 
+(* ------------------------------------------------------------------ the lattice record
+   an item without an entry is its own root *)
+Definition par (s : uf) (x : N) : N := match get x s with Some p => p | None => x end.
+
+Fixpoint piter (n : nat) (s : uf) (x : N) : N :=
+  match n with
+  | O => x
+  | S n' => piter n' s (par s x)
+  end.
+
+(* executable forest check: following the parents from any key for |map| steps ends in a root
+   (this is what excludes cycles: new / new_from accept any map) *)
+Definition forestb (s : uf) : bool :=
+  forallb (fun k => let r := piter (length s) s k in N.eqb (par s r) r) (keys s).
+
+Definition uf_wf (s : uf) : bool := forestb s && nodupb (keys s).
+
+(* LatOps wants total functions; on well-formed maps the res-valued operations never fail
+   (PUF.v), the fall-back branches are unreachable there.  The compressed copies that
+   partial_cmp / eq leave behind are dropped: they denote the same partition. *)
+Definition uf_ops : LatOps uf := {|
+  wf := uf_wf;
+  mrg := fun a b => match merge a b with Ok r => r | _ => (a, false) end;
+  cmp := fun a b => match pcmp a b with Ok r => snd r | _ => None end;
+  eqb := fun a b => match peq a b with Ok r => snd r | _ => false end;
+  isbot := uf_isbot;
+  istop := fun _ => false;
+|}.
+
 (* ------------------------------------------------------------------ histories
    A union-find value is built from Default by unions, merges of other values (themselves
    built by histories) and -- because they compress paths -- same / partial_cmp / eq / is_bot
